@@ -65,6 +65,7 @@ Raises(b, c) ==
       [] c.m = "delete" -> IF b.del \/ b.sel # <<>> \/ b.upd # "" THEN "AttributeError" ELSE ""
       [] c.m \in {"columns", "insert", "replace"} -> IF b.ins = "" THEN "AttributeError" ELSE ""
       [] c.m = "selectstr" -> IF b.from = <<>> THEN "QueryException" ELSE ""
+      [] c.m \in {"orderbystr", "groupbystr"} -> IF b.from = <<>> THEN "IndexError" ELSE ""
       [] c.m = "on_conflict" -> IF b.ins = "" THEN "QueryException" ELSE ""
       [] c.m = "do_nothing" -> IF b.ocupd # <<>> THEN "QueryException" ELSE ""
       [] c.m = "do_update" -> IF b.ocnothing THEN "QueryException" ELSE ""
@@ -98,6 +99,8 @@ Eff(b, c) ==
       [] c.m = "having" -> [b EXCEPT !.hav = Append(@, c.crit)]
       [] c.m = "groupby" -> [b EXCEPT !.grp = @ \o c.terms]
       [] c.m = "orderby" -> [b EXCEPT !.ord = @ \o [i \in DOMAIN c.terms |-> [t |-> c.terms[i], dir |-> c.dir]]]
+      [] c.m = "orderbystr" -> [b EXCEPT !.ord = Append(@, [t |-> [k |-> "fld", src |-> b.from[1], n |-> c.name, al |-> ""], dir |-> ""])]
+      [] c.m = "groupbystr" -> [b EXCEPT !.grp = Append(@, [k |-> "fld", src |-> b.from[1], n |-> c.name, al |-> ""])]
       [] c.m = "join" -> [b EXCEPT !.joins = Append(@, [item |-> c.item, how |-> c.how, kind |-> c.kind, crit |-> c.crit, cols |-> c.cols])]
       [] c.m = "limit" -> [b EXCEPT !.lim = c.n]
       [] c.m = "fetch_next" -> [b EXCEPT !.lim = c.n]
